@@ -154,8 +154,7 @@ def run(ctx):
             continue
         feats = s1.features | s2.features
         one_workspace(ctx, root, docs, files, feats)
-        if i < 2:
-            ctx.sample({"features": sorted(feats)[:25], "test_mod.py": test[:800]})
+        ctx.sample({"features": sorted(feats)[:25], "test_mod.py": test[:800]})
         shutil.rmtree(root, ignore_errors=True)
 
 
